@@ -147,12 +147,27 @@ def main(tier, replay=None):
                 "certificate token = subject/issuer/skid/akid/key/signature/notBefore/notAfter/basicConstraints/keyUsage/extKeyUsage/futureExt (see ocaml/c19/driver.ml)",
                 "replay: bin/check C19 quick --replay <this file>"]))
 
-    # --- correspondence
-    diffs = [key for key in case_by_key if impl.get(key) != model.get(key)]
+    # --- correspondence.  The property distinguishes accept / reject (and what gets installed /
+    #     who is admitted), not the error code: rejects are compared as "reject" (AddNOC: at which
+    #     command), a differing error CLASS alone is recorded, not reported (harmless refactors).
+    def canon(line):
+        if line is None:
+            return None
+        f = line.split(" ")
+        if len(f) > 2 and f[2] == "err":
+            return " ".join(f[:2] + ["reject"])
+        if len(f) > 2 and f[2] == "root-err":
+            return " ".join(f[:2] + ["root-reject"])
+        return line
+    diffs = [key for key in case_by_key if canon(impl.get(key)) != canon(model.get(key))]
+    class_diffs = [key for key in case_by_key if impl.get(key) != model.get(key) and key not in set(diffs)]
+    if class_diffs:
+        c.notes.append("%d cases rejected by both sides with a different error class, e.g. %s | impl: %s | model: %s" % (
+            len(class_diffs), case_by_key[class_diffs[0]][:200], impl.get(class_diffs[0]), model.get(class_diffs[0])))
     if diffs and not c.violations and not c.known_seen:
         lines = ["correspondence corr:C19 broke: model and implementation disagree on %d of %d cases;" % (len(diffs), len(case_by_key)),
                  "the monitor (extracted property) found no chain on which the implementation's accept/reject decision violates C19",
-                 "(the difference is in the error class, or in what gets installed).",
+                 "(the difference is in what gets installed / which node is admitted, or a panic-free reject vs accept the monitor does not cover).",
                  "theorems no longer tied to the code: " + ", ".join(c.coq["theorems"]), ""]
         for key in diffs[:10]:
             lines += ["case : " + case_by_key[key], "impl : " + str(impl.get(key)), "model: " + str(model.get(key)), ""]
@@ -196,6 +211,7 @@ def main(tier, replay=None):
         "monitor_violations": mon_viol,
         "monitor_violations_by_name": per_name,
         "disagreements_checked": len(diffs),
+        "error_class_only_differences": len(class_diffs),
         "exhaustive": False,
     })
     c.finish(level="proof",
